@@ -192,6 +192,28 @@ SkelCase(k, ix) ==
    parts |-> <<[s |-> Fill(Skeletons[k], [j \in 1..Len(ix) |-> Alphabet[ix[j]]], 1)]>>]
 RandomIdx(n) == [j \in 1..n |-> Pick(TokIdx)]
 
+(* (c) expression soup: every sequence of n tokens of a small expression alphabet (literal, name, unary and binary
+       operators, parentheses, the line break) appended to `let y = x`: the operator/operand/line-break combinations the
+       Pratt parser has to decide on, exhaustively up to length n *)
+ExprAlphabet == << "1", "x", "+", "-", "\n", "(", ")", "not", "..", "*" >>
+ExprIdx == 1..Len(ExprAlphabet)
+ESoupCase(ix) ==
+  [id |-> "esoup" \o IdxStr(ix), gen |-> "esoup", prog |-> "", p |-> 0, op |-> "esoup", i |-> Len(ix), a |-> 0,
+   parts |-> <<[s |-> "let x = 2\nlet y = x " \o JoinToks([j \in 1..Len(ix) |-> ExprAlphabet[ix[j]]], 1) \o "\n"]>>]
+
+(* (d) typing: every prefix of a few short texts that are rich in lexical forms (escapes in strings and characters,
+       triple-quoted text, comments, digit separators, floats, operators of two characters): what an editor hands to
+       the analysis while the text is being typed *)
+TypingTexts == <<
+  "let s = \"a\\n\\t\\\"b\\\\\"\nlet c = 'x'\nlet d = '\\n'\nprintln(s .. c)\n",
+  "let n = 1_000_000 + 0.5e3 - 3.141_592\n// note\\\nlet m = n /* mid\\ */ * 2\nprintln(m >= 1 and m != 2)\n",
+  "let t = \"\"\"\n  first \\\" line\n    second\n  \"\"\"\nprintln(t)\n",
+  "fn f(a: int, b = \"q\\\\\") -> string {\n  match a { 0 -> \"z\", _ -> b .. \"\\n\" }\n}\nprintln(f(1))\n",
+  "type P = { x: float }\nlet p = P(1.5)\np.x += 2.0\nlet r = [p.x, -p.x ^ 2.0]\nprintln(r[0] <= r[1])\n" >>
+TypingCase(k, n) ==
+  [id |-> "typing." \o ToString(k) \o "." \o ToString(n), gen |-> "typing", prog |-> "", p |-> 0, op |-> "typing", i |-> k, a |-> n,
+   parts |-> <<[s |-> SubSeq(TypingTexts[k], 1, n)]>>]
+
 \* the unmodified corpus program (sanity: the harness sees what the project's own tests see)
 OrigCase(p) == [id |-> Corpus[p].name \o ".orig.0.0", gen |-> "orig", prog |-> Corpus[p].name, p |-> p,
                 op |-> "orig", i |-> 0, a |-> 0, parts |-> Parts(LexOf(p))]
